@@ -200,6 +200,14 @@ class HyperedgeShiftSegment : public ShiftSegment
                     {
                         nodes.insert(node);
                         node->shiftSegmentNodeSet = &nodes;
+                        if (node->isImmovable())
+                        {
+                            // The segment has been moved onto a terminal
+                            // (or a fixed junction) and has taken it in.
+                            // It must not be shifted any further, or the
+                            // terminal would be moved along with it.
+                            isImmovable = true;
+                        }
                     }
                 }
             }
